@@ -3,7 +3,7 @@
 use crate::core::*;
 use crate::enc::*;
 use crate::guard::*;
-#[cfg(feature = "full")]
+#[cfg(feature = "f-decstack")]
 use crate::props::c01;
 #[cfg(any(feature = "full", feature = "v-aws"))]
 use nexrad_data::aws::realtime::Chunk;
@@ -49,12 +49,12 @@ fn record_ops(r: &Record) -> usize {
         if let Ok(d) = r.decompress() {
             n += d.data().len();
             n += d.compressed() as usize;
-            #[cfg(feature = "full")]
+            #[cfg(feature = "f-decstack")]
             let _ = d.messages();
             let _ = debug_all(&d);
         }
     }
-    #[cfg(feature = "full")]
+    #[cfg(feature = "f-decstack")]
     let _ = r.messages().map(|m| m.len());
     n += debug_all(r);
     n
@@ -87,7 +87,7 @@ pub fn check_bytes(ctx: &Ctx, bytes: &[u8], origin: &str, st: &mut Stats) -> usi
     one("File::records", &mut || file.records().len());
     #[cfg(feature = "f-serde")]
     one("File::header", &mut || file.header().is_ok() as usize);
-    #[cfg(feature = "full")]
+    #[cfg(feature = "f-decstack")]
     one("File::scan", &mut || file.scan().map(|s| s.sweeps().len()).unwrap_or(0));
     one("File::debug", &mut || debug_all(&file));
     one("split_compressed_records", &mut || split_compressed_records(bytes).len());
@@ -96,7 +96,7 @@ pub fn check_bytes(ctx: &Ctx, bytes: &[u8], origin: &str, st: &mut Stats) -> usi
     one("Record::compressed", &mut || rec.compressed() as usize);
     #[cfg(feature = "f-bzip2")]
     one("Record::decompress", &mut || rec.decompress().map(|r| r.data().len()).unwrap_or(0));
-    #[cfg(feature = "full")]
+    #[cfg(feature = "f-decstack")]
     one("Record::messages", &mut || rec.messages().map(|m| m.len()).unwrap_or(0));
     one("Record::debug", &mut || debug_all(&rec));
     let slice_rec = Record::from_slice(bytes);
@@ -111,7 +111,7 @@ pub fn check_bytes(ctx: &Ctx, bytes: &[u8], origin: &str, st: &mut Stats) -> usi
             Chunk::Start(f) => {
                 #[allow(unused_mut)]
                 let mut n = f.records().iter().map(record_ops).sum::<usize>();
-                #[cfg(feature = "full")]
+                #[cfg(feature = "f-decstack")]
                 {
                     n += f.header().is_ok() as usize;
                     n += f.scan().is_ok() as usize;
@@ -291,7 +291,7 @@ pub fn run(ctx: &'static Ctx) -> (&'static str, Value, Vec<&'static str>) {
 
     // (3) every truncation point of valid volumes and chunks
     let mut containers: Vec<(String, Vec<u8>)> = Vec::new();
-    #[cfg(feature = "full")]
+    #[cfg(feature = "f-decstack")]
     {
         let vol_cases = c01::cases(false);
         let picks: Vec<usize> = (0..12).map(|k| (k * 173 + 5) % vol_cases.len()).collect();
@@ -304,7 +304,7 @@ pub fn run(ctx: &'static Ctx) -> (&'static str, Value, Vec<&'static str>) {
             containers.push((format!("volume#{k}"), bytes));
         }
     }
-    #[cfg(not(feature = "full"))]
+    #[cfg(not(feature = "f-decstack"))]
     {
         // build-configuration variants have no volume generator (it needs the model conversion):
         // two- and three-record volumes built from the reference message encoder instead
@@ -324,7 +324,7 @@ pub fn run(ctx: &'static Ctx) -> (&'static str, Value, Vec<&'static str>) {
     // (more than 720 radials in one sweep, more than 255 sweeps, 70 000 radials, empty records)
     #[allow(unused_mut)]
     let mut s4b = Stats::new();
-    #[cfg(feature = "full")]
+    #[cfg(feature = "f-decstack")]
     {
         let mk = |runs: Vec<(u8, u16)>, per_record: usize, level: u32, moments: u8| {
             let total: usize = runs.iter().map(|r| r.1 as usize).sum();
@@ -411,9 +411,9 @@ pub fn run(ctx: &'static Ctx) -> (&'static str, Value, Vec<&'static str>) {
             let mut st = Stats::new();
             let n = check_bytes(ctx, &hin[i], "history", &mut st);
             let f = File::new(hin[i].clone());
-            #[cfg(feature = "full")]
+            #[cfg(feature = "f-decstack")]
             let r = guarded(|| (f.records().len(), f.scan().is_ok(), Record::new(hin[i].clone()).decompress().map(|d| d.data().len()).ok()));
-            #[cfg(not(feature = "full"))]
+            #[cfg(not(feature = "f-decstack"))]
             let r = guarded(|| (f.records().len(), Record::new(hin[i].clone()).compressed()));
             format!("{n}|{:?}", r)
         },
